@@ -23,6 +23,7 @@ EXPLANATION = (
     ' Round 4 (added): a bra handed to QutipState is stored as its adjoint (.dag()); QutipState.overlap uses the squared modulus only under a test that both states are kets.'
     ' Round 5 (added): the energy moments are expectation values ((H @ H).expect(state), H.expect(state)), defined for density matrices too;'
     " the stochastic branch of QutipBackendV2.run hands get_hamiltonian(..., noiseless=True) to the observables; in the configuration rebuilt around the emulated noise model the 'noise_model' key follows the ** spread of the user's options (later keys win)."
+    ' Round 7 (added after the sixth, smaller round of breaking changes): QutipState.sample passes a cutoff of at most 1e-2 / num_shots to bitstring_probabilities (outcomes below the cutoff are dropped and the rest renormalised).'
 )
 ASSUMPTIONS = ["the truth table is evaluated over the three atoms of the path condition of the storing call, read off the symbolic normal form (pstatic/sym.py)"]
 
